@@ -130,6 +130,7 @@ variantClassMap = {
     't': UInt64,
     'g': Signature,
     'o': ObjectPath,
+    'd': float,
 }
 
 
